@@ -24,7 +24,7 @@ func registerBW() {
 		},
 		Shrink:  bw.Shrink,
 		OneShot: true,
-		Timeout: 15 * time.Second,
+		Timeout: 20 * time.Second,
 	}
 	real := append([]string{"sourcebundle.Builder / Bundle / OpenDir / WriteArchive / ExtractArchive", "golang.org/x/mod dirhash", "go-versions (membership and ordering trusted)"}, realCommon...)
 	plans["C08"] = &Plan{ID: "C08", Level: "exploration",
